@@ -1,7 +1,357 @@
-"""C12 (stub while building)"""
+"""C12 -- any order of writer calls is safe; misuse is reported, not absorbed (DESIGN.md §3 C12).
+
+Decides: no undischarged panic-capable site reachable from the writer API (C12-PANIC), where the typestate assertions are
+discharged by state invariants checked over all methods (C12-TS: I1 extra-data mode implies a plain stored sink, I2 a closed entry
+leaves a plain stored sink, I3 the flags imply a current entry and entries are never removed, I4 permissions are set before use);
+each documented misuse is refused by a guard with the documented outcome (C12-MISUSE); a failed compressor switch leaves the
+writer closed so that finish() cannot succeed with an entry whose creation failed (C12-FAILCLOSED); per-entry accounting
+(C12-PATCH = C01-PATCH)."""
+import re
+
+from engine.expr import Ex, norm, show, walk, alts
+from engine.intervals import dominating_facts
+from engine.mir import AnchorLost, callee_matches
+from engine.paths import paths, decided, called, outcome
+from engine.query import calls_matching, where, field_assignments, mut_borrows_of_field, find_switch_on, ret_alts, enum_variants
+from rules.C01 import patch_rules, ZW
+from rules.shared_codec import tokens
 from rules.shared_panic import panic_rule, is_write_root
+
+FLAGS = ("writing_to_file", "writing_to_extra_field", "writing_to_central_extra_field_only", "writing_raw")
+
+
+def _flag_assigns(f, flag):
+    out = []
+    for bi, si, s in f.stmts():
+        if s["k"] == "assign":
+            fp = [p.get("n") for p in s["place"]["p"] if p["k"] == "field"]
+            if fp == [flag] and s["place"]["l"] == 1 and s["rv"]["k"] == "use" and s["rv"]["op"]["k"] == "const":
+                out.append((bi, si, s, int(s["rv"]["op"]["v"])))
+    return out
+
+
+def ts_rules(facts, rep):
+    rule = "C12-TS"
+    ok = True
+    zmeths = [f for f in facts.fns if re.search(ZW, f.path) or re.search(r"^write::<impl std::(io::Write|ops::Drop) for write::zip_writer::ZipWriter<W>>::", f.path)
+              or re.search(r"^write::<impl write::zip_writer::ZipWriter<A>>::", f.path)]
+    rep.count("writer_methods", len(zmeths))
+    # ---------------- I1 (F13): in end_extra_data the extra-data flags are cleared before the fallible compressor switch
+    ee = facts.one(ZW + "end_extra_data$")
+    sw = calls_matching(ee, r"GenericZipWriter::<W>::switch_to$")
+    clears = [x for x in _flag_assigns(ee, "writing_to_extra_field") if x[3] == 0]
+    good = bool(sw) and bool(clears) and all(any(ee.dominates(c[0], b) for c in clears) for b, _ in sw)
+    ok &= rep.check(good, rule, "I1:clear-before-switch", where(ee, sw[0][1]["span"]) if sw else where(ee, ee.span),
+                    "writing_to_extra_field is cleared before switch_to(): a failed switch cannot leave extra-data mode on a closed writer",
+                    "end_extra_data calls the fallible switch_to() while writing_to_extra_field is still set: when it fails (unsupported method, level out "
+                    "of range) the writer is closed with the flag set and the next finish()/start_file() panics in get_plain")
+    # validation happens before the flag is cleared and before anything is emitted
+    va = calls_matching(ee, r"^write::validate_extra_data$")
+    wa = calls_matching(ee, r"io::Write::write_all$")
+    good = bool(va) and all(ee.dominates(va[0][0], c[0]) for c in clears) and all(ee.dominates(va[0][0], b) for b, _ in wa)
+    ok &= rep.check(good, rule, "I1:validate-first", where(ee, ee.span), "validate_extra_data()? dominates the flag reset and every emission",
+                    "extra data can be emitted or extra-data mode left before validation")
+    # I1-establish: every `writing_to_extra_field := true`
+    for f in zmeths:
+        for bi, si, s, v in _flag_assigns(f, "writing_to_extra_field"):
+            if v != 1:
+                continue
+            nm = f.path.split("::")[-1]
+            if nm == "start_file_with_extra_data":
+                se = calls_matching(f, ZW + "start_entry$")
+                mut = calls_matching(f, r"switch_to$|mem::replace$")
+                good = bool(se) and f.dominates(se[0][0], bi) and not mut
+                ok &= rep.check(good, rule, "I1:establish@%s" % nm, where(f, s["span"]), "set right after start_entry()? with no compressor switch in between",
+                                "extra-data mode is entered without a preceding successful start_entry (sink not plain)")
+            elif nm == "end_local_start_central_extra_data":
+                co = [x for x in _flag_assigns(f, "writing_to_central_extra_field_only") if x[3] == 1]
+                e2 = calls_matching(f, ZW + "end_extra_data$")
+                good = bool(co) and bool(e2) and f.dominates(e2[0][0], bi)
+                ok &= rep.check(good, rule, "I1:establish@%s" % nm, where(f, s["span"]), "central-only extra-data mode entered after end_extra_data()?, together with central_only",
+                                "central extra-data mode is entered without setting central_only (get_plain would be reached with a compressor active)")
+            else:
+                ok = False
+                rep.violation(rule, "I1:establish@%s" % nm, where(f, s["span"]), "unexpected site enters extra-data mode")
+    # get_plain in end_extra_data only when not central-only
+    gp = calls_matching(ee, r"get_plain$")
+    exe = Ex(ee)
+    for b, t in gp:
+        fs = dominating_facts(ee, exe, b)
+        good = any(x[0] == "truth" and x[2] is False and ("central" in show(x[1])) for x in fs)
+        ok &= rep.check(good, rule, "I1:get_plain-not-central", where(ee, t["span"]), "sink accessed only when not in central-only mode",
+                        "end_extra_data touches the sink in central-only mode (a compressor is active then)")
+    # ---------------- I2: finish_file leaves a plain stored sink
+    ff = facts.one(ZW + "finish_file$")
+    exf = Ex(ff)
+    e2 = calls_matching(ff, ZW + "end_extra_data$")
+    st = calls_matching(ff, r"switch_to$")
+    gpf = calls_matching(ff, r"get_plain$")
+    good = bool(e2 and st and gpf)
+    if good:
+        fs = dominating_facts(ff, exf, e2[0][0])
+        good = any(x[0] == "truth" and x[2] is True and "writing_to_extra_field" in show(x[1]) for x in fs)
+        a = norm(exf.operand(st[0][1]["args"][1], (st[0][0], None)))
+        good = good and a[0] == "agg" and a[1] == "adt:Stored" and ff.dominates(st[0][0], gpf[0][0])
+    ok &= rep.check(good, rule, "I2:close-sequence", where(ff, ff.span), "implicit end_extra_data()? when in extra-data mode, then switch_to(Stored)?, then the plain sink",
+                    "the entry-closing function no longer ends extra-data mode / switches to Stored before touching the plain sink")
+    # the match after mem::replace restores a Storer on every non-error arm
+    assigns = [(bi, si, s) for (f, bi, si, s) in field_assignments(facts, "inner", r"ZipWriter$") if f.path == ff.path]
+    vals = [norm(exf.rvalue(s["rv"], (bi, si))) for bi, si, s in assigns]
+    good = len(vals) >= 2 and all(v[0] == "agg" and v[1] == "adt:Storer" for v in vals) and \
+        any(v[3][0][1][0] == "agg" and v[3][0][1][1] == "adt:Unencrypted" for v in vals)
+    ok &= rep.check(good, rule, "I2:restore-storer", where(ff, ff.span), "inner := Storer(Unencrypted(..)) / Storer(w) on the success arms",
+                    "finish_file restores %s" % [show(v)[:60] for v in vals])
+    for nm in ("start_entry", "finalize"):
+        f = facts.one(ZW + nm + "$")
+        c1 = calls_matching(f, ZW + "finish_file$")
+        g = calls_matching(f, r"get_plain$")
+        good = bool(c1 and g) and all(f.dominates(c1[0][0], b) for b, _ in g)
+        ok &= rep.check(good, rule, "I2:get_plain-after-close@%s" % nm, where(f, f.span), "plain sink accessed only after finish_file()? succeeded",
+                        "%s accesses the plain sink without first closing the current entry" % nm)
+    fin = facts.one(ZW + "finish$")
+    c1 = calls_matching(fin, ZW + "finalize$")
+    un = calls_matching(fin, r"GenericZipWriter::<W>::unwrap$")
+    good = bool(c1 and un) and fin.dominates(c1[0][0], un[0][0])
+    ok &= rep.check(good, rule, "I2:unwrap-after-finalize", where(fin, fin.span), "sink unwrapped only after finalize()? succeeded", "finish() unwraps the sink without a successful finalize()")
+    # ---------------- I3: entries are never removed; flags that promise a current entry are set only after one was pushed
+    bad = []
+    for f in facts.fns:
+        ex = Ex(f)
+        for bi, t in f.calls():
+            if callee_matches(t, r"Vec::<T, A>::(pop|remove|swap_remove|clear|truncate|drain|retain|split_off|dedup)") and t["args"]:
+                r = norm(ex.operand(t["args"][0], (bi, None)))
+                if r[0] == "field" and r[2] == "files" and r[1][0] == "arg":
+                    bad.append((f.path, t["callee"].split("::")[-1]))
+            if callee_matches(t, r"sort|reverse|swap$|rotate") and t["args"]:
+                r = norm(ex.operand(t["args"][0], (bi, None)))
+                if any(x[0] == "field" and x[2] == "files" for x in walk(r)) and re.search(r"^write::", f.path):
+                    bad.append((f.path, t["callee"].split("::")[-1]))
+    ok &= rep.check(not bad, rule, "I3:files-append-only", "", "no method removes or reorders entries of ZipWriter.files", "entries can be removed/reordered: %s" % bad)
+    for f in zmeths:
+        for flag in ("writing_to_file", "writing_to_extra_field"):
+            for bi, si, s, v in _flag_assigns(f, flag):
+                if v != 1:
+                    continue
+                se = calls_matching(f, ZW + "(start_entry|end_extra_data)$")
+                good = bool(se) and any(f.dominates(b, bi) for b, _ in se)
+                ok &= rep.check(good, rule, "I3:%s-after-entry@%s" % (flag, f.path.split("::")[-1]), where(f, s["span"]),
+                                "%s := true only after an entry was opened" % flag, "%s is set without a current entry" % flag)
+    # last().unwrap() sites are guarded by one of the flags (or follow start_entry)
+    for f in zmeths:
+        ex = Ex(f)
+        for bi, t in f.calls():
+            if callee_matches(t, r"Option::<T>::unwrap$") and t["args"] and t["args"][0]["k"] != "const":
+                r = norm(ex.operand(t["args"][0], (bi, None)))
+                if r[0] == "call" and re.search(r"::(last|last_mut)$", r[1]) and ".files" in tokens(r):
+                    fs = dominating_facts(f, ex, bi)
+                    guard = any(x[0] == "truth" and x[2] is True and re.search(r"writing_to_(file|extra_field)$", show(x[1])) for x in fs)
+                    se = calls_matching(f, ZW + "(start_entry|end_extra_data)$")
+                    after = any(f.dominates(b, bi) for b, _ in se)
+                    ok &= rep.check(guard or after, rule, "I3:last-unwrap@%s" % f.path.split("::")[-1], where(f, t["span"]),
+                                    "files.last().unwrap() under a flag that implies a current entry", "files.last().unwrap() without a guard implying a current entry")
+    # ---------------- I4
+    for f in zmeths:
+        ex = Ex(f)
+        for bi, t in f.calls():
+            if callee_matches(t, r"Option::<T>::unwrap$") and t["args"] and t["args"][0]["k"] != "const":
+                r = norm(ex.operand(t["args"][0], (bi, None)))
+                if ".permissions" in tokens(r) and "as_mut()" in tokens(r):
+                    somes = [a for a in alts(r[2][0] if r[0] == "call" else r) if a[0] == "agg" and a[1] == "adt:Some"]
+                    isn = find_switch_on(f, lambda d: d[0] == "call" and d[1].endswith("is_none") and ".permissions" in tokens(d))
+                    good = bool(isn) and f.dominates(isn[0][0], bi) and bool(somes)
+                    ok &= rep.check(good, rule, "I4:permissions@%s" % f.path.split("::")[-1], where(f, t["span"]),
+                                    "`if permissions.is_none() { permissions = Some(..) }` dominates the unwrap", "permissions.as_mut().unwrap() without the is_none()/Some default")
+    # the flags and the sink are private state
+    adt = facts.adts.get("write::zip_writer::ZipWriter")
+    if adt:
+        for fld in adt["variants"][0]["fields"]:
+            if fld["name"] in FLAGS + ("inner", "files", "stats"):
+                good = "Public" not in fld["vis"]
+                ok &= rep.check(good, rule, "private:%s" % fld["name"], adt["span"], "field not nameable outside the crate", "ZipWriter.%s is public: callers can break the typestate" % fld["name"])
+    rep.floor(rule, 22)
+    return ok
+
+
+def failclosed_rules(facts, rep):
+    rule = "C12-FAILCLOSED"
+    ok = True
+    sw = facts.one(r"^write::GenericZipWriter::<W>::switch_to$")
+    ps = paths(sw)
+    rep.count("switch_to_paths", len(ps))
+    n = 0
+    for p in ps:
+        o = outcome(p)
+        if o[0] not in ("Err", "ErrProp"):
+            continue
+        n += 1
+        closed_before = decided(p, r"^discr\(GenericZipWriter::current_compression") == 0 or \
+            decided(p, r"^discr\(mem::replace\(self, Closed") == 0
+        took = bool(called(p, r"mem::replace$"))
+        good = took or closed_before
+        if not good:
+            ok = False
+            rep.violation(rule, "switch_to:err-without-close", where(sw, sw.span),
+                          "switch_to can fail (%s) while leaving the writer usable: the entry was already pushed by start_entry, so a later finish() "
+                          "succeeds with an entry whose creation failed" % (show(o[1])[:80] if o[1] else o[0]))
+    rep.ok(rule, "switch_to:every-error-leaves-closed", where(sw, sw.span), "%d error paths, each after mem::replace(self, Closed) or on an already closed writer" % n) if ok else None
+    # start_file: writing_to_file := true only after switch_to succeeded
+    sf = facts.one(ZW + "start_file$")
+    st = calls_matching(sf, r"switch_to$")
+    fl = [x for x in _flag_assigns(sf, "writing_to_file") if x[3] == 1]
+    good = bool(st and fl) and all(sf.dominates(st[0][0], x[0]) for x in fl)
+    ok &= rep.check(good, rule, "start_file:flag-after-switch", where(sf, sf.span), "writing_to_file := true only after the compressor switch succeeded",
+                    "start_file marks the entry writable before the compressor switch")
+    return ok
+
+
+def misuse_rules(facts, rep):
+    rule = "C12-MISUSE"
+    ok = True
+    # ---- Write::write
+    w = facts.one(r"^write::<impl std::io::Write for write::zip_writer::ZipWriter<W>>::write$")
+    ps = paths(w)
+    rep.count("write_paths", len(ps))
+    r1 = [p for p in ps if decided(p, r"^self\.writing_to_file$") == 0]
+    good = bool(r1) and all(outcome(p)[0] == "Err" and len(p["decisions"]) == 1 and not called(p, r"io::Write::write$|update$") for p in r1)
+    ok &= rep.check(good, rule, "write:no-file-started", where(w, w.span), "!writing_to_file => Err, nothing written", "write() without a started file is not refused outright")
+    r2 = [p for p in ps if decided(p, r"^discr\(GenericZipWriter::ref_mut") == 0]
+    good = bool(r2) and all(outcome(p)[0] == "Err" and "BrokenPipe" in show(outcome(p)[1]) for p in r2)
+    ok &= rep.check(good, rule, "write:closed", where(w, w.span), "closed writer => Err(BrokenPipe)", "write() on a closed writer is not refused with BrokenPipe")
+    # ---- end_extra_data
+    ee = facts.one(ZW + "end_extra_data$")
+    exe = Ex(ee)
+    t0 = ee.term(0)
+    d0 = norm(exe.operand(t0["discr"], (0, None))) if t0 and t0["k"] == "switch" else None
+    good = d0 is not None and d0[0] == "field" and d0[2] == "writing_to_extra_field"
+    if good:
+        tgt = [b for v, b in t0["targets"] if v == 0]
+        good = bool(tgt) and any(s["k"] == "assign" and s["rv"]["k"] == "agg" and s["rv"].get("variant") in ("Err", "Io") for b in ee.reach_from_inclusive(tgt[0], avoid={0}) & _straight(ee, tgt[0]) for s in ee.blocks[b]["stmts"])
+    ok &= rep.check(bool(good), rule, "end_extra_data:not-in-extra-mode", where(ee, ee.span), "first test: !writing_to_extra_field => Err", "end_extra_data without start_file_with_extra_data is not refused first")
+    # ---- switch_to table
+    sw = facts.one(r"^write::GenericZipWriter::<W>::switch_to$")
+    ps = paths(sw)
+    CM = enum_variants(facts, "compression::CompressionMethod")
+    inv = {v: k for k, v in CM.items()}
+    rows = {"stored+level": False, "level-out-of-range": 0, "aes": False, "unsupported": False, "closed": False, "same-method-noop": False}
+    for p in ps:
+        o = outcome(p)
+        comp = decided(p, r"^discr\(compression\)$")
+        if decided(p, r"^discr\(GenericZipWriter::current_compression") == 0 and o[0] == "Err":
+            rows["closed"] = True
+        if decided(p, r"^PartialEq::eq\(") == 1 and o[0] == "Ok" and not called(p, r"mem::replace$"):
+            rows["same-method-noop"] = True
+        if comp == inv.get("Stored") and decided(p, r"is_some\(compression_level\)") == 1:
+            rows["stored+level"] = (o[0] == "Err") if rows["stored+level"] in (False, True) and o[0] == "Err" else rows["stored+level"]
+            if o[0] != "Err":
+                rows["stored+level"] = "bad"
+        if comp == inv.get("Aes"):
+            rows["aes"] = "bad" if o[0] != "Err" or rows["aes"] == "bad" else True
+        if comp == inv.get("Unsupported"):
+            rows["unsupported"] = "bad" if o[0] != "Err" or rows["unsupported"] == "bad" else True
+        if comp in (inv.get("Deflated"), inv.get("Bzip2"), inv.get("Zstd")):
+            cl = decided(p, r"^discr\(Try::branch\(Option::ok_or\(write::clamp_opt")
+            if cl == 1:
+                rows["level-out-of-range"] = rows["level-out-of-range"] + 1 if o[0] == "ErrProp" and isinstance(rows["level-out-of-range"], int) else "bad"
+            elif cl is None and o[0] == "Ok":
+                rows["level-out-of-range"] = "bad"   # a compressing arm that does not range-check its level
+    for k, v in rows.items():
+        good = v is True or (isinstance(v, int) and not isinstance(v, bool) and v >= 3)
+        ok &= rep.check(good, rule, "switch_to:%s" % k, where(sw, sw.span), {"stored+level": "Stored with a level => Err", "level-out-of-range": "level outside the codec's range => Err (all compressing methods)",
+                        "aes": "AES => Err", "unsupported": "Unsupported(_) => Err", "closed": "closed writer => Err", "same-method-noop": "same method => Ok without touching the sink"}[k],
+                        "switch_to row '%s' is not enforced (%s)" % (k, v))
+    # level ranges come from the codec crates, not literals
+    for nm, pat in (("deflate", r"flate2::Compression::(none|best)$"), ("bzip2", r"bzip2::Compression::(none|best)$")):
+        f = facts.find(r"^write::%s_compression_level_range$" % nm)
+        if f:
+            cs = [t["callee"] for _, t in f[0].calls()]
+            good = sum(1 for c in cs if re.search(pat, c)) == 2
+            ok &= rep.check(good, rule, "range:%s" % nm, where(f[0], f[0].span), "range = [none(), best()] of the codec crate", "%s level range is computed from %s" % (nm, cs))
+    co = facts.one(r"^write::clamp_opt$")
+    ra = ret_alts(co)
+    good = any(a[0] == "agg" and a[1] == "adt:None" for a in ra) and any(a[0] == "agg" and a[1] == "adt:Some" and a[3][0][1][0] == "arg" for a in ra) and \
+        bool(calls_matching(co, r"RangeInclusive::<Idx>::contains$"))
+    ok &= rep.check(good, rule, "clamp_opt", where(co, co.span), "clamp_opt = Some(value) iff range.contains(value)", "clamp_opt changed: %s" % [show(a) for a in ra])
+    # ---- add_directory / add_symlink leave writing_to_file false; finish leaves the writer closed
+    for nm in ("add_directory", "add_symlink"):
+        f = facts.one(ZW + nm + "$")
+        fl = _flag_assigns(f, "writing_to_file")
+        last = [x for x in fl if all(not (y[0] in f.reach_from(x[0])) for y in fl if y is not x)]
+        good = bool(last) and all(x[3] == 0 for x in last)
+        ok &= rep.check(good, rule, "%s:not-writable-after" % nm, where(f, f.span), "writing_to_file is false when %s returns" % nm, "%s leaves the entry writable" % nm)
+    fin = facts.one(ZW + "finish$")
+    exn = Ex(fin)
+    rp = calls_matching(fin, r"mem::replace$")
+    good = bool(rp) and any(a[0] == "agg" and a[1] == "adt:Closed" for a in alts(norm(exn.operand(rp[0][1]["args"][1], (rp[0][0], None)))))
+    ok &= rep.check(good, rule, "finish:closes", where(fin, fin.span), "finish() leaves the writer Closed", "finish() does not close the writer")
+    # ---- validate_extra_data rows
+    va = facts.one(r"^write::validate_extra_data$")
+    ps = paths(va, max_loop=1)
+    rep.count("validate_paths", len(ps))
+    def row(pred):
+        hit = [p for p in ps if pred(p)]
+        return bool(hit) and all(outcome(p)[0] in ("Err", "ErrProp") for p in hit)
+    rows = {
+        "too-long": row(lambda p: decided(p, r"^Gt\(.*len\(.*ZIP64_ENTRY_THR") == 1),
+        "truncated-header": row(lambda p: decided(p, r"^Lt\(.*len\(.*, 4\)") == 1),
+        "zip64-id": row(lambda p: decided(p, r"^Eq\(ok\(ReadBytesExt::read_u16.*, 1\)") == 1),
+        "size-exceeds": row(lambda p: decided(p, r"^Gt\(\(ok\(ReadBytesExt::read_u16.* as usize\), Sub\(") == 1),
+    }
+    if "unreserved" not in facts.features:
+        rows["reserved-low"] = row(lambda p: decided(p, r"^Le\(ok\(ReadBytesExt::read_u16.*, 31\)") == 1)
+        rows["reserved-list"] = row(lambda p: decided(p, r"Iterator::any\(") == 1)
+    for k, v in rows.items():
+        ok &= rep.check(v, rule, "validate:%s" % k, where(va, va.span), "row '%s' => Err" % k, "extra-data validation row '%s' is missing or does not reject" % k)
+    okp = [p for p in ps if outcome(p)[0] == "Ok"]
+    good = bool(okp) and all(decided(p, r"^Gt\(.*len\(.*ZIP64_ENTRY_THR") == 0 for p in okp)
+    ok &= rep.check(good, rule, "validate:ok-only-when-all-pass", where(va, va.span), "Ok only after the length row passed", "validation can succeed without the length test")
+    # the reserved-id test scans the whole table linearly (the table is not sorted)
+    clo = facts.closures_of(va)
+    anyc = calls_matching(va, r"Iterator::any$")
+    if "unreserved" not in facts.features:
+        good = bool(anyc) and bool(clo) and not calls_matching(va, r"binary_search|contains$")
+        if good:
+            exv = Ex(va)
+            src = norm(exv.operand(anyc[0][1]["args"][0], (anyc[0][0], None)))
+            good = "iter()" in tokens(src) and src[0] == "call" and src[2] and src[2][0][0] in ("named", "const")
+        ok &= rep.check(good, rule, "validate:reserved-linear-scan", where(va, va.span), "EXTRA_FIELD_MAPPING.iter().any(== kind): complete scan of the (unsorted) table",
+                        "the reserved header-id test is no longer a complete scan of EXTRA_FIELD_MAPPING (e.g. binary search over the unsorted table misses ids)")
+    rep.floor(rule, 20)
+    return ok
+
+
+def _straight(f, b):
+    """blocks on the straight-line continuation of b (single successors) up to the first switch/return"""
+    out = set()
+    while b is not None and b not in out:
+        out.add(b)
+        t = f.term(b)
+        if not t or t["k"] in ("switch", "return"):
+            break
+        s = f.succ(b)
+        b = s[0] if len(s) == 1 else None
+    return out
 
 
 def run(ctx, rep):
     facts = ctx.facts
-    panic_rule(ctx, rep, "C12-PANIC", facts, is_write_root)
+    rep.configs.append("default")
+    rep.explanation = (
+        "Writer typestate, statically: (1) panic inventory over everything reachable from the ZipWriter/FileOptions API; its typestate "
+        "assertions (get_plain, unwrap, unreachable!, files.last().unwrap()) are discharged by invariants I1-I4, each checked for "
+        "establishment at every site that sets its antecedent and for preservation on Ok and Err edges (entries voided if an invariant "
+        "rule fails); (2) path-enumerated decision tables for the documented misuses (write without file / on closed writer, "
+        "end_extra_data outside extra mode, switch_to rows, validate_extra_data rows incl. a complete scan of the reserved-id table); "
+        "(3) every failing path of the compressor switch leaves the writer closed; (4) per-entry CRC/size accounting and reset. The "
+        "content-level clause ('exactly the entries/bytes') is not decided beyond (3) and (4).")
+    void = set()
+    if not ts_rules(facts, rep):
+        void.add("C12-TS")
+    failclosed_rules(facts, rep)
+    misuse_rules(facts, rep)
+    patch_rules(facts, rep, rule="C12-PATCH")
+    panic_rule(ctx, rep, "C12-PANIC", facts, is_write_root, void_rules=void)
+    rep.floor("C12-PANIC", 60)
+    rep.assume("sequences using the experimental encryption option beyond start_file+write are outside the property's quantifier (DESIGN.md O7)")
+    if ctx.tier == "thorough":
+        from rules.shared_panic import thorough_configs
+        thorough_configs(ctx, rep, "C12-PANIC", is_write_root, void)
